@@ -1,0 +1,11 @@
+//go:build verif
+
+// Contracts for package misc, checked by /verif/govc (comment-only; compiled only with -tags verif).
+package misc
+
+//@ prelude c15
+
+//@ func (i *IriExpander) Expand(iri string) (string, error)
+//@   requires i != nil
+//@   ensures-assumed [C15:A-PURE] result0 == expandF(mapvals(deref(i).Context), mapdom(deref(i).Context), iri) && result1 == expandErrF(mapvals(deref(i).Context), mapdom(deref(i).Context), iri)
+//@   ensures [C15:keywords-pass-through] true
